@@ -83,7 +83,7 @@ def memo_pool():
 
 
 def cases(tier):
-    out = [["term", e] for e in term_cases(tier)]
+    out = [["term", e] for e in gen.spines() + term_cases(tier)]
     pool = memo_pool()
     for i, j in itertools.product(range(len(pool)), repeat=2):
         out.append(["memo", i, j])
@@ -240,6 +240,24 @@ def check_memo(i, j, seed):
         with I.memoize() as cache:
             for e in (ea, eb, ea):
                 results.append((e, lang.build(e, seed, arrays)))
+    except Exception as ex:
+        return core.decline(key, "raised:" + type(ex).__name__)
+    # a user-supplied (initially empty) cache shared by two successive memoize() contexts
+    try:
+        user_cache = {}
+        arrays2 = {}
+        with I.memoize(user_cache):
+            first = lang.build(ea, seed, arrays2)
+        n_after_first = len(user_cache)
+        with I.memoize(user_cache):
+            second = lang.build(ea, seed, arrays2)
+        from funsor.terms import Funsor
+
+        if isinstance(first, Funsor) and lang.size(ea) > 1:
+            if n_after_first == 0:
+                return core.violation(key, "memoize-user-cache", "memoize(cache) left the user-supplied dict empty after building %s" % lang.code(ea), ["memo", i, j], {"pair": [i, j], "what": "cache-not-used"})
+            if first is not second:
+                return core.violation(key, "memoize-user-cache", "two memoize(cache) contexts sharing one user-supplied dict returned different objects for %s" % lang.code(ea), ["memo", i, j], {"pair": [i, j], "what": "identity-across-contexts"})
     except Exception as ex:
         return core.decline(key, "raised:" + type(ex).__name__)
     if results[0][1] is not results[2][1]:
